@@ -150,3 +150,88 @@ by rewrite -[LHS]mulmx1 -E mulmxA (mulVmx uB) mul1mx.
 Qed.
 
 End BlockDiag.
+
+(* ------------------------------------------------------------------ *)
+(* The model's loops at the MathComp instance                          *)
+Section Assembly.
+Variable F : realFieldType.
+Variable tr : Transc F.
+Variable sq : forall n, 'M[F]_n -> 'M[F]_n.
+Variable eg : forall n, 'M[F]_n -> 'M[F]_(n,1).
+Let O := MxMat tr sq eg.
+Variable bs : nat.
+Hypothesis bs0 : (0 < bs)%N.
+
+Lemma mx_get_mul m n p (A : 'M[F]_(m,n)) (B : 'M[F]_(n,p)) (i j : nat) :
+  (i < m)%N -> (j < p)%N -> mx_get (A *m B) i j = \sum_(l < n) mx_get A i l * mx_get B l j.
+Proof.
+move=> im jp.
+have -> : i = Ordinal im by []. have -> : j = Ordinal jp by [].
+by rewrite mx_get_ord mxE; apply: eq_bigr => l _; rewrite !mx_get_ord.
+Qed.
+
+Lemma mx_get_tr m n (A : 'M[F]_(m,n)) (i j : nat) : mx_get A^T i j = mx_get A j i.
+Proof.
+rewrite /mx_get; case: (insub i) => [i'|]; case: (insub j) => [j'|] //.
+by rewrite mxE.
+Qed.
+
+Lemma sum_blocks nb (Fn : nat -> F) :
+  \sum_(i < nb * bs) Fn i = \sum_(b < nb) \sum_(l < bs) Fn (b * bs + l)%N.
+Proof.
+rewrite -(big_mkord xpredT Fn) big_nat_mul big_mkord; apply: eq_bigr => b _.
+rewrite mulSnr -{1}[(b * bs)%N]add0n big_addn addKn big_mkord.
+by apply: eq_bigr => l _; rewrite addnC.
+Qed.
+
+Lemma blk_div c x : ((c * bs <= x) && (x < c * bs + bs))%N = (x %/ bs == c)%N.
+Proof. by rewrite -mulSnr -leq_divRL // -ltn_divLR // ltnS -eqn_leq eq_sym. Qed.
+
+Lemma blk_mod x : (x - x %/ bs * bs)%N = (x %% bs)%N.
+Proof. by rewrite {1}(divn_eq x bs) addKn. Qed.
+
+Lemma get_set_block m n r c (A : 'M[F]_(m,n)) r0 c0 (B : 'M[F]_(r,c)) (i j : nat) :
+  (i < m)%N -> (j < n)%N ->
+  mx_get (mset_block (O:=O) A r0 c0 B) i j =
+  if ((r0 <= i) && (i < r0 + r) && (c0 <= j) && (j < c0 + c))%N
+  then mx_get B (i - r0) (j - c0) else mx_get A i j.
+Proof. by move=> im jn; rewrite /mset_block /= mx_get_build // !leb_leq !ltb_ltn. Qed.
+
+(* a row of blocks: block t written at columns [t*bs, t*bs+bs) *)
+Lemma fold_rowblocks r n cnt (off : nat -> nat) (G : nat -> 'M[F]_(r, bs)) (A0 : 'M[F]_(r,n))
+      (i j : nat) :
+  (forall t, off t = (t * bs)%N) -> (i < r)%N -> (j < n)%N ->
+  mx_get (List.fold_left (fun acc t => mset_block (O:=O) acc 0 (off t) (G t)) (List.seq 0 cnt) A0) i j
+  = if (j < cnt * bs)%N then mx_get (G (j %/ bs)%N) i (j %% bs)%N else mx_get A0 i j.
+Proof.
+move=> Hoff ir jn; elim: cnt => [|cnt IH]; first by rewrite mul0n ltn0.
+rewrite List.seq_S List.fold_left_app /= get_set_block // IH Hoff leq0n add0n ir /= subn0.
+rewrite blk_div -!ltn_divLR // ltnS.
+case: (ltngtP (j %/ bs)%N cnt) => [lt|gt|E].
+- by rewrite (ltnW lt).
+- by rewrite leqNgt gt.
+- by rewrite -E leqnn blk_mod.
+Qed.
+
+(* blocks on the diagonal: block t at rows and columns [t*bs, t*bs+bs) *)
+Lemma fold_diagblocks n cnt (off : nat -> nat) (G : nat -> 'M[F]_bs) (i j : nat) :
+  (forall t, off t = (t * bs)%N) -> (i < n)%N -> (j < n)%N ->
+  mx_get (List.fold_left (fun acc t => mset_block (O:=O) acc (off t) (off t) (G t))
+                         (List.seq 0 cnt) (0 : 'M[F]_n)) i j
+  = if ((i < cnt * bs) && (j < cnt * bs) && (i %/ bs == j %/ bs))%N
+    then mx_get (G (i %/ bs)%N) (i %% bs)%N (j %% bs)%N else 0.
+Proof.
+move=> Hoff ir jn; elim: cnt => [|cnt IH].
+  by rewrite mul0n ltn0 /= /mx_get; case: insub => // a; case: insub => // c; rewrite mxE.
+rewrite List.seq_S List.fold_left_app /= get_set_block // IH Hoff -andbA !blk_div -!ltn_divLR // !ltnS.
+case: (ltngtP (i %/ bs)%N cnt) => [lt|gt|E] /=.
+- case: (ltngtP (j %/ bs)%N cnt) => [lt2|gt2|E2] //=.
+  by rewrite E2 (gtn_eqF lt).
+- by [].
+- rewrite E; case: (ltngtP (j %/ bs)%N cnt) => [lt2|gt2|E2] //=.
+  + by rewrite eq_sym (ltn_eqF lt2).
+  + by rewrite eq_sym (gtn_eqF gt2).
+  + by rewrite -{1}E -{1}E2 !blk_mod eqxx.
+Qed.
+
+End Assembly.
